@@ -59,5 +59,7 @@ check('C30', title='The inter-thread queue never loses, duplicates or reorders',
              dict(name='full', harness='c30_mpmc', variant='schedp', inproc=True, quick=dict(args=['p=2', 'pushes=1', 'c=1', 'pops=2', 'full=1'], deadline=100, shards=1), thorough=dict(args=['p=2', 'pushes=1', 'c=2', 'pops=1', 'full=1'], deadline=600, shards=1)),
              dict(name='full-c2x2', harness='c30_mpmc', variant='schedp', inproc=True, thorough_only=True, thorough=dict(args=['p=2', 'pushes=1', 'c=2', 'pops=2', 'full=1'], deadline=1500, shards=1)),
              dict(name='full-p2x2', harness='c30_mpmc', variant='schedp', inproc=True, thorough_only=True, thorough=dict(args=['p=2', 'pushes=2', 'c=1', 'pops=2', 'full=1'], deadline=900, shards=1)),
+             # segments of one slot: every second push to a lane chains a new segment, drained segments go through BufferPool's cache and are reused
+             dict(name='chain', harness='c30_mpmc', variant='schedp', inproc=True, quick=dict(args=['p=1', 'pushes=5', 'c=1', 'pops=5', 'seg=1', 'bound=2'], deadline=100), thorough=dict(args=['p=2', 'pushes=3', 'c=1', 'pops=6', 'seg=1', 'bound=2'], deadline=900)),
              dict(name='tsan', harness='c30_mpmc', variant='tsan', inproc=True, quick=dict(args=['p=2', 'pushes=2', 'c=2', 'pops=2', 'bound=1'], deadline=100), thorough=dict(args=['p=2', 'pushes=2', 'c=2', 'pops=2', 'bound=2'], deadline=700)),
              dict(name='asan', harness='c30_mpmc', variant='sched', inproc=True, quick=dict(args=['p=2', 'pushes=1', 'c=1', 'pops=2', 'bound=1'], deadline=90), thorough=dict(args=['p=2', 'pushes=2', 'c=2', 'pops=2', 'bound=1'], deadline=400))])
